@@ -228,10 +228,30 @@ func appendFn(l []*ssa.Function, f *ssa.Function) []*ssa.Function {
 }
 
 // isProtoWrite: a call of Write(ctx, []byte) on a ReadWriterContext or *ctxio.Conn.
+// ctxIOInvoke: an interface method with the protocol connection's context-taking shape: name(ctx context.Context, x T)
+// (..., error), invoked on ReadWriterContext or on an unexported repo interface that narrows it (`frameWriter`).
+func ctxIOInvoke(c *ssa.CallCommon, name string) bool {
+	if !c.IsInvoke() || c.Method.Name() != name {
+		return false
+	}
+	if isNamed(c.Value.Type(), pkgVarlink, "ReadWriterContext") {
+		return true
+	}
+	nt, ok := c.Value.Type().(*types.Named)
+	if !ok || nt.Obj().Pkg() == nil || !strings.HasPrefix(nt.Obj().Pkg().Path(), pkgVarlink) {
+		return false
+	}
+	sig, ok := c.Method.Type().(*types.Signature)
+	if !ok || sig.Params().Len() != 2 || !isNamed(sig.Params().At(0).Type(), "context", "Context") {
+		return false
+	}
+	return sig.Results().Len() == 2 && isErrorType(sig.Results().At(1).Type())
+}
+
 func isProtoWrite(cs CallSite) bool {
 	c := cs.Common
 	if c.IsInvoke() {
-		return c.Method.Name() == "Write" && isNamed(c.Value.Type(), pkgVarlink, "ReadWriterContext")
+		return ctxIOInvoke(c, "Write")
 	}
 	if f := c.StaticCallee(); f != nil && f.Name() == "Write" && f.Signature.Recv() != nil {
 		return isNamed(f.Signature.Recv().Type(), pkgCtxio, "Conn")
@@ -243,7 +263,7 @@ func isProtoWrite(cs CallSite) bool {
 func isProtoReadBytes(cs CallSite) bool {
 	c := cs.Common
 	if c.IsInvoke() {
-		return c.Method.Name() == "ReadBytes" && isNamed(c.Value.Type(), pkgVarlink, "ReadWriterContext")
+		return ctxIOInvoke(c, "ReadBytes")
 	}
 	if f := c.StaticCallee(); f != nil && f.Name() == "ReadBytes" && f.Signature.Recv() != nil {
 		return isNamed(f.Signature.Recv().Type(), pkgCtxio, "Conn")
@@ -256,6 +276,8 @@ func (ro *Roles) rootedInCall(v ssa.Value) bool {
 	for i := 0; i < 10; i++ {
 		switch x := v.(type) {
 		case *ssa.UnOp:
+			v = x.X
+		case *ssa.ChangeInterface:
 			v = x.X
 		case *ssa.FieldAddr:
 			if isNamed(x.X.Type(), pkgVarlink, "Call") {
